@@ -228,22 +228,28 @@ fn gen_case(t: &mut Tape) -> E2Case {
             }
         }
         if has_into && !quick_into {
+            // a fallible conversion takes the member instruction of exactly its kind first: half of the fallible enums spell the
+            // variant-level instructions with the try_ names (seeded change C09-10)
+            let try_names = fallible && t.coin();
+            if try_names {
+                labels.push("variant-into:try-spelling".into());
+            }
             match arm {
                 Arm::Lit(_) => {}
                 Arm::CatchAll => {
                     if has_ref {
                         if cells[OI] {
-                            a.push_str("#[owned_into({ f0 })] ");
+                            a.push_str(if try_names { "#[owned_try_into({ f0 })] " } else { "#[owned_into({ f0 })] " });
                         }
                         if cells[RI] {
-                            a.push_str("#[ref_into({ *f0 })] ");
+                            a.push_str(if try_names { "#[ref_try_into({ *f0 })] " } else { "#[ref_into({ *f0 })] " });
                         }
                     } else {
-                        a.push_str("#[into({ f0 })] ");
+                        a.push_str(if try_names { "#[try_into({ f0 })] " } else { "#[into({ f0 })] " });
                     }
                 }
                 _ => {
-                    let _ = write!(a, "#[into({{ {} }})] ", lit_text(into_v.unwrap()));
+                    let _ = write!(a, "#[{}({{ {} }})] ", if try_names { "try_into" } else { "into" }, lit_text(into_v.unwrap()));
                 }
             }
         }
